@@ -119,6 +119,9 @@ class FLPSpec(SelSpec):
             for k in range(1, n):
                 out.append((f"flp{n}-k{k}", dict(locs=PTS[:n], to_choose=k)))
         out.append(("flp4-dup-k2", dict(locs=[PTS[0], PTS[0], PTS[1], PTS[2]], to_choose=2)))
+        # coordinates outside the unit square (e.g. a normal location distribution): distances exceed the box diagonal
+        out.append(("flp4-far-k1", dict(locs=[(0.0, 0.0), (3.0, 0.0), (0.0, 4.0), (3.0, 4.0)], to_choose=1)))
+        out.append(("flp4-far-k2", dict(locs=[(0.0, 0.0), (3.0, 0.0), (0.0, 4.0), (3.0, 4.0)], to_choose=2)))
         return out
 
     def seeded_instances(self, tier, seed):
@@ -233,7 +236,8 @@ class DPPSpec(SelSpec):
             probe = torch.zeros(1, n, dtype=torch.bool)
             for c in inst["probes"]:
                 probe[0, c] = True
-                avail[0, c] = False
+                if inst.get("premask_probes", True):
+                    avail[0, c] = False  # the generator already clears the probing ports in action_mask; hand-built data need not
         else:
             probe = torch.tensor([[int(inst["probes"][0])]], dtype=torch.long)
             avail[0, int(inst["probes"][0])] = False
@@ -252,6 +256,10 @@ class DPPSpec(SelSpec):
                 if len(others) - len(ko) < quota:
                     continue
                 out.append((f"{self.kind}3-p{''.join(map(str, ps))}-k{''.join(map(str, ko))}-q{quota}", dict(size=size, probes=ps, keepout=list(ko), quota=quota)))
+        if self.multi:
+            # hand-supplied instances whose action_mask only encodes the keep-out cells (ports are given by `probe`)
+            out.append(("mdpp3-raw-p048-k1-q2", dict(size=3, probes=[0, 4, 8], keepout=[1], quota=2, premask_probes=False)))
+            out.append(("mdpp3-raw-p26-k-q3", dict(size=3, probes=[2, 6], keepout=[], quota=3, premask_probes=False)))
         if tier != "quick":
             out.append((f"{self.kind}4-q3", dict(size=4, probes=[5] if not self.multi else [5, 10], keepout=[0, 15, 3], quota=3)))
         else:
